@@ -16,7 +16,7 @@ Fixpoint steps_ok (stopped : bool) (prev : sobs) (acts : list action) (obs : lis
       && (if stopped'
           then match new_execs a prev cur with [] => true | _ => false end
                && match so_started cur with [] => true | _ => false end
-               && forallb (fun q => Bool.eqb (qo_worker_stopped q) (negb (qo_running q))) (so_queues cur)
+               && forallb (fun q => Bool.eqb (qo_worker_stopped q) (negb (qo_running q)) && negb (qo_delayed q)) (so_queues cur)
           else forallb (fun q => negb (qo_worker_stopped q)) (so_queues cur))
       && steps_ok stopped' cur acts' obs'
   | _, _ => false
